@@ -242,8 +242,13 @@ class EditDistance(SequenceEdit):
         elif self.edit_matrix is None:
             # This means we are already fully tightened and deleted the interstitial datastructures to save memory
             return False
-        elif self.is_complete() and not self.edit_matrix[-1][-1].bounds().definitive():
-            return self.edit_matrix[-1][-1].tighten_bounds()
+        elif self.is_complete():
+            if not self.edit_matrix[-1][-1].bounds().definitive():
+                return self.edit_matrix[-1][-1].tighten_bounds()
+            # The matrix is complete and its last cell is final, so there is nothing left to tighten.
+            # (Calling self.bounds() below would build the edits and free the matrix we are about to index.)
+            self._cleanup()
+            return False
         # We are still building the matrix
         initial_bounds: Range = self.bounds()
         while True:
